@@ -7,12 +7,15 @@ DST = "/verif/seeded"
 rows = []
 for rf in sorted(glob.glob(f"{DST}/results/*.json")):
     key = os.path.basename(rf)[:-5]
-    pid, x = key[:3], key[3:]
+    pid, x = key[:3], key[-1]
     try:
         res = json.load(open(rf))
     except Exception:
         continue
     src = f"{OUT}/{pid}"
+    m = re.search(r"r(\d+)", key[3:])
+    if m:
+        src = f"/tmp/seed{m.group(1)}/out/{pid}"
     d = f"{DST}/{key}"
     if os.path.isdir(src):
         os.makedirs(d, exist_ok=True)
